@@ -1,5 +1,6 @@
 CONSTANTS
   Deep = TRUE
+  Wide = TRUE
 INIT Init
 NEXT Next
 INVARIANTS NoOom ExactlyOnceInOrder AllConsumed NullOnce Laws SlurpLaw OracleAgrees
